@@ -82,6 +82,7 @@ ResetStep(e) ==
   /\ res0' = NoRes /\ res1' = NoRes /\ res' = NoRes
   /\ pol' = e.pol
   /\ lf' = [i \in {0, 1} |-> [k |-> e.lf[i + 1].k, code |-> e.lf[i + 1].code]]
+  /\ wf' = NoWF
   /\ issued' = {}
   /\ via' = "-" /\ last' = [op |-> "-"]
 
@@ -97,7 +98,7 @@ TNext ==
        [] e.op = "snap" -> SnapMatch(e) /\ UNCHANGED vars
        [] e.op = "skip" -> UNCHANGED vars
        [] e.op = "panic" -> FALSE        \* no specification step is a panic
-       [] OTHER -> /\ IF e.via = "u" THEN ViaUnifier(e, pol, lf)
+       [] OTHER -> /\ IF e.via = "u" THEN ViaUnifierWF(e, pol, lf, [i \in {0, 1} |-> e.wf[i + 1]])
                       ELSE Direct(IF e.via = "m0" THEN 0 ELSE 1, e)
                    /\ Match(res', e)
                    /\ TraceStepProps
